@@ -45,6 +45,12 @@ def postingsValidate : List RawPosting → Nat → Option (Nat × String)
       else if !validAsset p.asset then some (i, "invalid asset")
       else postingsValidate rest (i + 1)
 
+/-- A posting as `Postings.Validate` wants it. -/
+def WellFormed (p : RawPosting) : Prop :=
+  (∃ a, p.amount = some a ∧ 0 ≤ a) ∧
+  (∃ body, accountPattern.unanchor = some body ∧ Lang body p.source ∧ Lang body p.destination) ∧
+  (∃ body, assetPattern.unanchor = some body ∧ Lang body p.asset)
+
 /-! ### literals of a script (internal/machine/script/compiler/compiler.go, `VisitLit`) -/
 
 /-- `case *parser.LitAssetContext`: the token text becomes the asset constant after
